@@ -272,6 +272,20 @@ def gen_cases(c):
                     '<loop set="obj[%s]" value="lv">{var:lv}</loop>', '<if case="{var:obj[%s]} == 1">y<else>n</if>', '{svar:phrase, {var:obj[%s]}, {math:{var:obj[%s]}}}',
                     '{math:{var:obj[%s]} + {var:obj[%s]}}']:
             add(tpl.replace("%s", k), "quotes")
+    # (h) a loop at nesting depth 254..258 (the level fields have eight bits) whose items live in a temporary copy (sort / group), below an
+    #     outer loop whose variable is used afterwards; mixes of <if> and <loop> as the enclosing tags
+    for depth in (253, 254, 255, 256, 257, 258, 511, 512):
+        for inner in ('<loop set="b" value="w" sort="ascend">{var:w}</loop>', '<loop set="r" value="w" group="y">{var:w}</loop>', '<loop set="b" value="w">{var:w}</loop>'):
+            for mix in (0, 1):
+                opn = "".join(('<if case="1">' if (mix == 0 or i % 2) else '<loop set="one" value="u%d">' % (i % 7)) for i in range(depth))
+                cls = "".join(("</if>" if (mix == 0 or i % 2) else "</loop>") for i in reversed(range(depth)))
+                cases.append(('<loop set="a" value="v">' + opn + inner + cls + "[{var:v}]</loop>", '{"a":["x","y"],"b":[3,1,2],"one":[1],"r":[{"y":1,"m":2},{"y":2,"m":3}]}', "level256"))
+    # (i) reals whose rounding carries out of the most significant digit (0.0075 at the engine's precision), printed into streams of every
+    #     fill level (the carry digit is stored behind the digits)
+    for x in ("0.0075", "0.005", "0.0099", "0.00999", "0.095", "0.995", "9.995", "99.995", "999.9951", "0.0949999", "-0.0075"):
+        for pad in list(range(0, 20)) + [28, 29, 30, 31, 60, 61, 62, 63]:
+            cases.append(("a" * pad + "{math:%s}" % x, '{"a":1}', "carry"))
+            cases.append(("a" * pad + "{var:x}{raw:x}", '{"x":%s}' % x, "carry"))
     # (g) unresolved tags whose echoed source ends in an entity look-alike, as the LAST thing of the buffer (the escaper looks ahead)
     for nm in ["R&D1", "a&", "a&b", "a&bc", "a&bcd", "&lt", "&am", "&amp", "&quo", "&apo", "&apos", "x&lt;", "<&>", "a'b\"&", "&", "&&&&", "a&l", "a&g", "a&q"]:
         for tpl in ("{var:%s}", "Dept: {var:%s}", "{var:%s[0]}", '<loop set="list" value="v">{var:v[%s]}</loop>', "{svar:phrase, {var:%s}}", '{if case="1" true="{var:%s}"}'):
